@@ -3,10 +3,13 @@
    without auto-borrow is accepted exactly when the hold update passes the rules, i.e. when available funds cover the
    reservation, and a rejected one changes nothing.  Proved over whole histories: on hold = sum of the reservations recorded for
    orders, per symbol, in every reachable state (LedgerProofs.v); closing an order removes its reservation.
-   C06_partial: that no reservation outlives its order when closing itself aborts with an internal error. *)
+   Proved over whole histories (HoldsOpen.v): every recorded reservation is that of an order that is open, so whenever no
+   order is open nothing is reserved and nothing is on hold -- for histories whose bars were all processed without an
+   internal error.  C06_partial: the same after a bar that aborted half-way with an internal error (monitor). *)
 From Coq Require Import ZArith QArith List.
 From Basana Require Import Num.DecQ Exchange.Model Exchange.AcctProofs Exchange.StepProofs Exchange.OpProofs
-     Exchange.HoldProofs Exchange.Prims Exchange.Structure Exchange.LedgerProofs Exchange.AtomicProofs Exchange.CancelProofs.
+     Exchange.HoldProofs Exchange.Prims Exchange.Structure Exchange.LedgerProofs Exchange.AtomicProofs Exchange.CancelProofs
+     Exchange.HoldsOpen.
 Import ListNotations.
 Open Scope Q_scope.
 
@@ -69,6 +72,48 @@ Theorem C06_reservations_are_non_negative : forall c initial ops k m,
   In (k, m) (s_holds (run c (init_st initial) ops)) -> vnodup m /\ forall kv, In kv m -> 0 <= snd kv.
 Proof. exact reachable_reservations_ok. Qed.
 Print Assumptions C06_reservations_are_non_negative.
+
+(* in every state reached by a history whose bars were processed without an internal error, every recorded reservation
+   is non-empty and belongs to an order that is open; no order has two *)
+Theorem C06_reservations_belong_to_open_orders : forall c initial ops,
+  cfg_ok c -> ops_ok ops -> NoDup (map fst initial) -> (forall kv, In kv initial -> 0 <= snd kv) ->
+  bars_processed c initial ops ->
+  let s := run c (init_st initial) ops in
+  NoDup (map fst (s_holds s)) /\
+  forall k m, In (k, m) (s_holds s) -> vnonempty m = true /\ still_open s k = true.
+Proof.
+  intros c initial ops Hc Ho Hn Hp Hb. destruct (reservations_belong_to_open_orders c initial ops Hc Ho Hn Hp Hb) as [A B].
+  split; [exact A|]. intros k m Hin. destruct (B k m Hin) as [X [Y|Y]]; [discriminate Y | split; assumption].
+Qed.
+Print Assumptions C06_reservations_belong_to_open_orders.
+
+(* ... hence: whenever no order is open, nothing is reserved and nothing is on hold in any symbol *)
+Theorem C06_nothing_on_hold_when_no_order_is_open : forall c initial ops x,
+  cfg_ok c -> ops_ok ops -> NoDup (map fst initial) -> (forall kv, In kv initial -> 0 <= snd kv) ->
+  bars_processed c initial ops ->
+  let s := run c (init_st initial) ops in
+  (forall i o, nth_error (s_orders s) i = Some o -> is_open o = false) ->
+  s_holds s = [] /\ vget (hold (s_acct s)) x == 0.
+Proof. exact nothing_on_hold_when_no_order_is_open. Qed.
+Print Assumptions C06_nothing_on_hold_when_no_order_is_open.
+
+(* the premises are met: two orders reserve funds, one is filled and the other cancelled; then nothing is on hold *)
+Example C06_no_open_order_premises_met :
+  let c := mkCfg [(1%positive, 2%nat); (2%positive, 2%nat)] [] None (PctFee (1#4) 0) (VolShare 25 0) NoLoans in
+  let p := (1%positive, 2%positive) in
+  let mid := [OBar p 60%Z (mkBar 100 100 100 100 100); OCreate (KLimit 100) Buy p 5 false false;
+              OCreate (KLimit 90) Buy p 1 false false] in
+  let ops := mid ++ [OBar p 120%Z (mkBar 100 100 100 100 100); OCancel 1%nat] in
+  let initial := [(2%positive, 1000)] in
+  cfg_ok c /\ ops_ok ops /\ NoDup (map fst initial) /\ bars_processed c initial ops /\
+  map (fun kv => fst kv) (s_holds (run c (init_st initial) mid)) = [0%nat; 1%nat] /\
+  map is_open (s_orders (run c (init_st initial) ops)) = [false; false] /\
+  s_holds (run c (init_st initial) ops) = [].
+Proof.
+  cbv zeta. split; [cbn; discriminate|]. split; [repeat constructor; cbn; discriminate|].
+  split; [repeat constructor; intros []|]. split; [apply bars_processed_of_bool; vm_compute; reflexivity|].
+  vm_compute. repeat split; reflexivity.
+Qed.
 
 Example C06_holds_nonvacuous :
   let c := mkCfg [(1%positive, 2%nat); (2%positive, 2%nat)] [] None NoFee (VolShare 25 0) NoLoans in
